@@ -41,6 +41,7 @@ PROPERTY_NOTES = {
 }
 
 K = 'contracts/kernels.c'
+KC = 'contracts/kernel_contracts.h'
 
 
 def U(name, src, harness, enforce, serves, **kw):
@@ -71,7 +72,25 @@ IO = 'contracts/c3dio.c'
 
 PA = 'contracts/parameter.c'
 
+RD = 'contracts/readers.c'
+_RD_SERVES = ['C02', 'C12', 'C13', 'C16', 'C18', 'C10']
+
 UNITS = [
+    U('readFile', RD, 'h_readFile', ['c3d__readFile/contract_c3d__readFile'], _RD_SERVES,
+      replace=['vf_stream_read/contract_vf_stream_read'], unwind=5, timeout=300,
+      props={'memsafe': ['C13', 'C16']}),
+    U('readUint', RD, 'h_readUint', ['c3d__readUint/contract_c3d__readUint'], _RD_SERVES + ['C17'],
+      replace=['c3d__readFile/contract_c3d__readFile', 'c3d__hex2uint/contract_c3d__hex2uint'], unwind=5, timeout=300,
+      props={'memsafe': ['C13', 'C16']}),
+    U('readInt', RD, 'h_readInt', ['c3d__readInt/contract_c3d__readInt'], _RD_SERVES + ['C17'],
+      replace=['c3d__readFile/contract_c3d__readFile', 'c3d__hex2int/contract_c3d__hex2int'], unwind=5, timeout=300,
+      props={'memsafe': ['C13', 'C16']}),
+    U('readFloat', RD, 'h_readFloat', ['c3d__readFloat/contract_c3d__readFloat'], _RD_SERVES + ['C01'],
+      replace=['c3d__readFile/contract_c3d__readFile'], unwind=5, timeout=300, props={'memsafe': ['C13', 'C16']}),
+    U('readString', RD, 'h_readString', ['c3d__readString/contract_c3d__readString'], _RD_SERVES + ['C04', 'C17'],
+      replace=['c3d__readFile/contract_c3d__readFile', 'vf_string_ctor_cstr/contract_vf_string_ctor_cstr',
+               'vf_string_ctor_copy/contract_vf_string_ctor_copy'], unwind=5, timeout=300,
+      props={'memsafe': ['C13', 'C16']}),
 ] + [U('isDimensionConsistent_%d' % k, PA, 'h_isDimensionConsistent',
          ['Parameter__isDimensionConsistent/contract_Parameter__isDimensionConsistent'], ['C09', 'C10', 'C13', 'C18', 'C19'],
          unwind=9, timeout=300, level='PB', bound='at most 7 dimensions of at most 255 entries (format capacity); one query per '
